@@ -140,6 +140,27 @@ impl Wake for Flag {
     }
 }
 
+/// One waker per poll. Only the waker handed to the *most recent* poll of a task reaches it (a
+/// future moved between tasks - `timeout(d, &mut fut)` and then `spawn(fut)`, a JoinSet, a
+/// FuturesUnordered - is woken through the new task's waker only; waking the old one does nothing
+/// for it). The `Future` contract requires every poll to arrange for the waker of *that* poll to be
+/// woken, so code that keeps the waker of an earlier poll loses its wake-up here.
+struct GenWaker {
+    flag: Arc<Flag>,
+    current: Arc<std::sync::atomic::AtomicU64>,
+    mine: u64,
+}
+impl Wake for GenWaker {
+    fn wake(self: Arc<Self>) {
+        self.wake_by_ref();
+    }
+    fn wake_by_ref(self: &Arc<Self>) {
+        if self.current.load(Ordering::SeqCst) == self.mine {
+            self.flag.0.store(true, Ordering::SeqCst);
+        }
+    }
+}
+
 #[derive(Clone, Copy, Debug, PartialEq, Eq)]
 pub enum TaskState {
     Live,
@@ -151,6 +172,8 @@ pub enum TaskState {
 struct Slot {
     fut: Option<Pin<Box<dyn Future<Output = ()>>>>,
     flag: Arc<Flag>,
+    /// generation of the waker handed out by the latest poll
+    gen: Arc<std::sync::atomic::AtomicU64>,
     state: TaskState,
     polls: u32,
     /// consecutive fruitless polls and the progress epoch at which the last one happened
@@ -199,6 +222,15 @@ pub struct Sim {
     /// resolved future object alive for this many ms before dropping it (a caller that holds the
     /// future in a pinned local, a slot table or a struct field does exactly that).
     pub hold_resolved_ms: Option<u64>,
+    /// every poll gets a waker of its own and wakes through older ones are lost (default on;
+    /// VCHECK_SAME_WAKER=1 switches it off for diagnosis)
+    pub fresh_wakers: bool,
+    /// at quiescence a pending caller is now and then polled although nobody woke it (as happens to
+    /// every branch of a `select!`/`join!` when a sibling wakes); which one and when is a
+    /// deterministic function of the case's order bytes and the instant. An empty order vector
+    /// means no spurious polls. VCHECK_NO_SPURIOUS=1 switches it off for diagnosis.
+    pub spurious_polls: bool,
+    settles: u64,
 }
 
 const SPIN_CAP: u32 = 3;
@@ -214,6 +246,9 @@ impl Sim {
             unexpected_panics: Vec::new(),
             livelock: false,
             hold_resolved_ms: None,
+            fresh_wakers: std::env::var_os("VCHECK_SAME_WAKER").is_none(),
+            spurious_polls: std::env::var_os("VCHECK_NO_SPURIOUS").is_none(),
+            settles: 0,
         }
     }
 
@@ -222,6 +257,7 @@ impl Sim {
         self.tasks.push(Slot {
             fut: Some(Box::pin(f)),
             flag: Arc::new(Flag(AtomicBool::new(true))),
+            gen: Arc::new(std::sync::atomic::AtomicU64::new(0)),
             state: TaskState::Live,
             polls: 0,
             spin: 0,
@@ -286,6 +322,36 @@ impl Sim {
         true
     }
 
+    /// Deterministic pseudo-random choice (FNV over the order bytes, the instant and the settle
+    /// count): in about one settle out of six, one live caller that nobody woke.
+    fn spurious_target(&self) -> Option<usize> {
+        if self.order.choices.is_empty() {
+            return None;
+        }
+        let mut h: u64 = 0xcbf29ce484222325;
+        for b in self
+            .order
+            .choices
+            .iter()
+            .copied()
+            .chain(now().to_le_bytes())
+            .chain(self.settles.to_le_bytes())
+        {
+            h ^= b as u64;
+            h = h.wrapping_mul(0x100000001b3);
+        }
+        if (h >> 8) % 6 != 0 {
+            return None;
+        }
+        let live: Vec<usize> = (0..self.tasks.len())
+            .filter(|&i| self.tasks[i].state == TaskState::Live && self.tasks[i].polls > 0)
+            .collect();
+        if live.is_empty() {
+            return None;
+        }
+        Some(live[((h >> 24) as usize) % live.len()])
+    }
+
     fn epoch(&self) -> usize {
         self.log.len() + self.completed
     }
@@ -307,7 +373,16 @@ impl Sim {
         let slot = &mut self.tasks[i];
         slot.flag.0.store(false, Ordering::SeqCst);
         slot.polls += 1;
-        let waker = Waker::from(slot.flag.clone());
+        let waker = if self.fresh_wakers {
+            let mine = slot.gen.fetch_add(1, Ordering::SeqCst) + 1;
+            Waker::from(Arc::new(GenWaker {
+                flag: slot.flag.clone(),
+                current: slot.gen.clone(),
+                mine,
+            }))
+        } else {
+            Waker::from(slot.flag.clone())
+        };
         let mut cx = Context::from_waker(&waker);
         let fut = slot.fut.as_mut().unwrap();
         CURRENT_TASK.with(|c| c.set(i as i32));
@@ -367,6 +442,8 @@ impl Sim {
         let mut quiet = 0;
         let mut guard = 0u32;
         let log_at_start = self.log.len();
+        self.settles += 1;
+        let mut spurious_left = 1u32;
         loop {
             guard += 1;
             if guard > 50_000 || self.log.len() > log_at_start + 20_000 {
@@ -391,6 +468,15 @@ impl Sim {
                 }
                 quiet += 1;
                 if quiet >= QUIET_YIELDS {
+                    if self.spurious_polls && spurious_left > 0 {
+                        spurious_left -= 1;
+                        if let Some(i) = self.spurious_target() {
+                            self.poll_task(i);
+                            tokio::task::yield_now().await;
+                            quiet = 0;
+                            continue;
+                        }
+                    }
                     break;
                 }
                 continue;
